@@ -136,3 +136,19 @@ fn k_rings_multipatch_closes_every_ring_kind() {
     assert!(matches!(p[0], Patch::OuterRing(_)) && matches!(p[1], Patch::InnerRing(_)) && matches!(p[2], Patch::FirstRing(_)) && matches!(p[3], Patch::Ring(_)));
     assert!(p[4].points().len() == 3 && p[5].points().len() == 3);
 }
+
+/// C16: a ring whose last vertex is a hair away from the first (not equal) is open: it gets its closing copy and
+/// keeps every vertex; the caller's ring order is kept (a hole listed before an outer ring stays first)
+#[kani::proof]
+#[kani::unwind(8)]
+fn k_rings_near_closed_and_ring_order() {
+    let tiny = f64::from_bits(0x3c80_0000_0000_0000); // 2^-55, far below f64::EPSILON
+    let o = vec![Point::new(0.0, 0.0), Point::new(0.0, 9.0), Point::new(9.0, 9.0), Point::new(tiny, 0.0)]; // clockwise, open by a hair
+    let h = vec![Point::new(1.0, 2.0), Point::new(3.0, 4.0), Point::new(1.0, 5.0), Point::new(1.0, 2.0)]; // counter-clockwise, closed
+    let poly = Polygon::with_rings(vec![PolygonRing::Inner(h), PolygonRing::Outer(o)]);
+    assert!(poly.rings().len() == 2);
+    assert!(matches!(poly.rings()[0], PolygonRing::Inner(_)) && matches!(poly.rings()[1], PolygonRing::Outer(_)));
+    let r1 = poly.rings()[1].points();
+    assert!(r1.len() == 5 && r1[3].x.to_bits() == tiny.to_bits() && r1[4].x == 0.0 && r1[4].y == 0.0 && r1[1].y == 9.0);
+    assert!(poly.rings()[0].points().len() == 4 && poly.rings()[0].points()[1].x == 3.0);
+}
